@@ -362,6 +362,9 @@ func main() {
 	r.Require("client-blocks-delivered", 6)
 	r.Parallel("client-neutrino", 1, 1, func(i int, cs int64) { neutrinoProbe(r, cs) })
 	r.Require("neutrino-blocks-delivered", 300)
+	r.Parallel("client-btcd", r.N(1, 6), 1, func(i int, cs int64) { btcdProbe(r, cs) })
+	r.Require("btcd-client-scenarios", 7)
+	r.Require("btcd-stops-with-a-backlog", 3)
 	r.Parallel("queue", n, 1, func(i int, cs int64) {
 		rg := rand.New(rand.NewSource(cs))
 		c := caseCfg{buf: bufs[rg.Intn(len(bufs))], nprod: []int{1, 1, 2, 4}[rg.Intn(4)], mode: rg.Intn(5), procs: procs[rg.Intn(3)], stopAt: -1}
